@@ -17,6 +17,22 @@ def _get_type_name(type_: Type[Any]) -> str:
     return str(getattr(type_, "__name__", type_))
 
 
+def _repr(value: Any) -> str:
+    try:
+        return repr(value)
+    except (ValueError, RecursionError):
+        # e.g. an int with more digits than sys.get_int_max_str_digits() allows,
+        # or a value nested deeper than the recursion limit
+        return object.__repr__(value)
+
+
+def _str(value: Any) -> str:
+    try:
+        return str(value)
+    except (ValueError, RecursionError):
+        return object.__repr__(value)
+
+
 def make_invalid_type_error(schema: "GenericSchema", value: Any,
                             types: Tuple[Type[Any], ...]) -> DeclarationError:
     value_type = type(value)
@@ -24,53 +40,55 @@ def make_invalid_type_error(schema: "GenericSchema", value: Any,
 
     types_ = tuple(map(_get_type_name, types))
     if len(types) == 1:
-        message = (f"`{schema!r}` value must be an instance of '{_get_type_name(types[0])}', "
-                   f"instance of {value_type_name!r} {value!r} given")
+        message = (f"`{_repr(schema)}` value must be an instance of '{_get_type_name(types[0])}', "
+                   f"instance of {value_type_name!r} {_repr(value)} given")
     else:
-        message = (f"`{schema!r}` value must be an instance of {types_!r}, "
+        message = (f"`{_repr(schema)}` value must be an instance of {types_!r}, "
                    f"instance of {value_type_name!r} given")
     return DeclarationError(message)
 
 
 def make_already_declared_error(schema: "GenericSchema") -> DeclarationError:
-    message = f"`{schema!r}` is already declared"
+    message = f"`{_repr(schema)}` is already declared"
     return DeclarationError(message)
 
 
 def make_incorrect_min_error(schema: "GenericSchema",
                              value: Any, min_value: Any) -> DeclarationError:
-    message = f"`{schema!r}` min value must be less than or equal to {value}, {min_value} given"
+    message = (f"`{_repr(schema)}` min value must be less than or equal to {_str(value)}, "
+               f"{_str(min_value)} given")
     return DeclarationError(message)
 
 
 def make_incorrect_max_error(schema: "GenericSchema",
                              value: Any, max_value: Any) -> DeclarationError:
-    message = f"`{schema!r}` max value must be greater than or equal to {value}, {max_value} given"
+    message = (f"`{_repr(schema)}` max value must be greater than or equal to {_str(value)}, "
+               f"{_str(max_value)} given")
     return DeclarationError(message)
 
 
 def make_incorrect_len_error(schema: "GenericSchema",
                              value: Sized, length: int) -> DeclarationError:
-    message = f"`{schema!r}` len must be equal to {len(value)}, {length} given"
+    message = f"`{_repr(schema)}` len must be equal to {len(value)}, {_str(length)} given"
     return DeclarationError(message)
 
 
 def make_incorrect_min_len_error(schema: "GenericSchema",
                                  value: Sized, min_length: int) -> DeclarationError:
-    message = (f"`{schema!r}` min len must be less than or equal to {len(value)}, "
-               f"{min_length} given")
+    message = (f"`{_repr(schema)}` min len must be less than or equal to {len(value)}, "
+               f"{_str(min_length)} given")
     return DeclarationError(message)
 
 
 def make_incorrect_max_len_error(schema: "GenericSchema",
                                  value: Sized, max_length: int) -> DeclarationError:
-    message = (f"`{schema!r}` max len must be greater than or equal to {len(value)}, "
-               f"{max_length} given")
+    message = (f"`{_repr(schema)}` max len must be greater than or equal to {len(value)}, "
+               f"{_str(max_length)} given")
     return DeclarationError(message)
 
 
 def make_incorrect_precision_error(schema: "GenericSchema",
                                    precision: int, max_precision: int) -> DeclarationError:
-    message = (f"`{schema!r}` precision must be greater than 0 or less than {max_precision}, "
-               f"{precision} given")
+    message = (f"`{_repr(schema)}` precision must be greater than 0 or less than {max_precision}, "
+               f"{_str(precision)} given")
     return DeclarationError(message)
